@@ -843,25 +843,25 @@ func TestC13(t *testing.T) {
 		}
 	}
 	run.Finish(map[string]any{
-		"evaluations":             len(cases) - missing - kinds["skipped"],
-		"distinct_nontrivial":     nontrivial,
-		"rule":                    "evaluation = one request executed in a worker and judged; non-trivial = distinct request with at least one field away from its family's default (valid) choice; distinct_outcome_classes = distinct (route, outcome kind, HTTP status, gRPC code)",
+		"evaluations":              len(cases) - missing - kinds["skipped"],
+		"distinct_nontrivial":      nontrivial,
+		"rule":                     "evaluation = one request executed in a worker and judged; non-trivial = distinct request with at least one field away from its family's default (valid) choice; distinct_outcome_classes = distinct (route, outcome kind, HTTP status, gRPC code)",
 		"distinct_outcome_classes": len(classes),
-		"cases":                   len(cases),
-		"families":                len(c13Families(thorough)),
-		"requests_by_route":       byRoute,
-		"outcome_kinds":           kinds,
-		"worker_processes":        int(p.spawned.Load()),
-		"process_deaths":          int(p.deaths.Load()),
-		"workers_restarted_infra": int(p.infra.Load()),
-		"quiesce_cap_reached":     int(p.slow.Load()),
-		"unresponsive":            unresponsive,
-		"not_run":                 missing,
-		"candidate_signatures":    sigCount,
-		"unstable_candidates":     unstable,
-		"exhaustive":              !timedOut.Load() && missing == 0 && unstable == 0 && unresponsive == 0,
-		"workers":                 workers,
-		"chunk":                   chunk,
+		"cases":                    len(cases),
+		"families":                 len(c13Families(thorough)),
+		"requests_by_route":        byRoute,
+		"outcome_kinds":            kinds,
+		"worker_processes":         int(p.spawned.Load()),
+		"process_deaths":           int(p.deaths.Load()),
+		"workers_restarted_infra":  int(p.infra.Load()),
+		"quiesce_cap_reached":      int(p.slow.Load()),
+		"unresponsive":             unresponsive,
+		"not_run":                  missing,
+		"candidate_signatures":     sigCount,
+		"unstable_candidates":      unstable,
+		"exhaustive":               !timedOut.Load() && missing == 0 && unstable == 0 && unresponsive == 0,
+		"workers":                  workers,
+		"chunk":                    chunk,
 	})
 	_ = http.StatusOK
 }
